@@ -11,6 +11,7 @@ Request `<op> <args…> => <implementation output>`, answer `model=<…> holds=<
   rt|out|in <codec> <kind> <len:crc> [..] => ok <len:crc>      model = "ok <len:crc>" (losslessness / interop)
   hist <codec> <what> <len:crc payload> <len:crc stream> => ok <len:crc> <len:crc>
   ovl <codec> <what> <p1> <p2> <p3> => ok <p1> <p2> <p3> <p1> <p2> <p3>   three writers, then three readers, open at once
+  cfg <spec> round<i> <len:crc payload> <len:crc pristine stream> => ok <payload> <stream>   configurations of one kind interleaved
   srcerr <codec> <len:crc> cut<k>/<n> => sound      the source fails after k bytes: an error or the whole payload
   wrerr <codec> <len:crc> cut<k>/<n> => sound       the sink fails after k bytes: Write or Close reports an error
   stress <codec> <G> => ok <G> none                  tight open/close loops on many goroutines
@@ -62,6 +63,7 @@ def step (line : String) : String :=
         let model := showNats ns
         answer model (model == impl && ns.foldl (· + ·) 0 == blocks.foldl (· + ·) 0)
       | _, _ => "bad-op"
+    | ["cfg", _spec, _round, p, st] => let model := s!"ok {p} {st}"; answer model (model == impl)
     | ["srcerr", _codec, _sum, _cut] => answer "sound" (impl == "sound")
     | ["wrerr", _codec, _sum, _cut] => answer "sound" (impl == "sound")
     | ["stress", _codec, g] =>
